@@ -33,11 +33,12 @@ def SubOK (f : FField CField) : Prop :=
   ∀ c ∈ f.sub, ∃ S, f.size = some S ∧ ∀ n, c.fsize = some n → c.offset + n ≤ S ∧ BitsInUnit c n
 
 theorem alignDown_mod (b a : Nat) (ha : A16 a) : alignDown b a % a = 0 ∧ alignDown b a ≤ b := by
-  rcases ha with rfl | rfl | rfl | rfl | rfl <;> simp only [alignDown] <;> omega
+  rw [alignDown_A16 _ _ ha]
+  rcases ha with rfl | rfl | rfl | rfl | rfl <;> simp only [alignDownA] <;> omega
 
 theorem bump_ge (A x bo m : Nat) :
-    m ≤ (St.bump A x bo m).byteoffsetmax ∧ roundupBytes x bo ≤ (St.bump A x bo m).byteoffsetmax := by
-  simp only [St.bump]; split <;> omega
+    m ≤ (bumpRef A x bo m).byteoffsetmax ∧ roundupBytes x bo ≤ (bumpRef A x bo m).byteoffsetmax := by
+  simp only [bumpRef]; split <;> omega
 
 theorem step_inside (u : Bool) (p : Nat) (last : Bool) (s s' : St) (f : FField CField) (o : List CField)
     (hp : PackOK p) (hf : WFField p last f) (hsub : SubOK f) (hA : A16 s.alignment)
@@ -50,7 +51,8 @@ theorem step_inside (u : Bool) (p : Nat) (last : Bool) (s s' : St) (f : FField C
   cases hb : f.bits with
   | none =>
     rw [hb] at hsz
-    unfold stepC at h
+    rw [stepC_eq_ref] at h
+    unfold stepCRef at h
     simp only [hb, hsz, hfal, Bool.false_eq_true, if_false, Bool.and_true] at h
     generalize (if u = true then 0 else s.byteoffset) = b0 at *
     generalize (if u = true then 0 else s.bitoffset) = bo0 at *
@@ -61,7 +63,7 @@ theorem step_inside (u : Bool) (p : Nat) (last : Bool) (s s' : St) (f : FField C
     have hA' : A16 (if decide (s.alignment < capAlign p f.align) = true then capAlign p f.align else s.alignment) := by
       split <;> assumption
     refine ⟨?_, (bump_ge _ _ _ _).1, hA', ?_⟩
-    · simp only [St.bump]; split <;> simp_all <;> omega
+    · simp only [bumpRef]; split <;> simp_all <;> omega
     · intro c hc
       by_cases hanon : (!f.named && f.isAgg) = true
       · simp only [hanon, if_true, List.mem_map] at hc
@@ -72,7 +74,7 @@ theorem step_inside (u : Bool) (p : Nat) (last : Bool) (s s' : St) (f : FField C
         refine ⟨Or.inl ?_, h2⟩
         have := (bump_ge (if decide (s.alignment < capAlign p f.align) = true then capAlign p f.align else s.alignment)
           (B + S) 0 s.byteoffsetmax).2
-        simp only [roundupBytes, Nat.lt_irrefl, if_false, Nat.add_zero] at this
+        simp only [roundupBytes_def, Nat.lt_irrefl, if_false, Nat.add_zero] at this
         simp only [hS]
         omega
       · simp only [hanon, Bool.false_eq_true, if_false, List.mem_singleton] at hc
@@ -82,7 +84,7 @@ theorem step_inside (u : Bool) (p : Nat) (last : Bool) (s s' : St) (f : FField C
         simp only [] at hn
         have := (bump_ge (if decide (s.alignment < capAlign p f.align) = true then capAlign p f.align else s.alignment)
           (B + n) 0 s.byteoffsetmax).2
-        simp only [roundupBytes, Nat.lt_irrefl, if_false, Nat.add_zero] at this
+        simp only [roundupBytes_def, Nat.lt_irrefl, if_false, Nat.add_zero] at this
         simp only [hn]
         omega
   | some w =>
@@ -90,8 +92,9 @@ theorem step_inside (u : Bool) (p : Nat) (last : Bool) (s s' : St) (f : FField C
     subst hp0
     have hcap : capAlign 0 f.align = f.align := by simp [capAlign]
     rw [hcap] at hfal hfa16
-    have hpk : (packCfg 0).2 = false := by simp [packCfg]
-    unfold stepC at h
+    have hpk : (packCfg 0).2 = false := by simp [packCfg_def]
+    rw [stepC_eq_ref] at h
+    unfold stepCRef at h
     simp only [hb, hfal, hpk, hint, hsize, Bool.false_eq_true, if_false, Bool.not_true, Bool.false_and,
       Option.isNone_some] at h
     have hbit0 : True := trivial
@@ -136,7 +139,7 @@ theorem step_inside (u : Bool) (p : Nat) (last : Bool) (s s' : St) (f : FField C
           · simp only [Nat.add_mod_right]; exact hdm
           · have := (bump_ge (if (decide (s.alignment < f.align) && f.named) = true then f.align else s.alignment)
               (fob + f.align + (0 + w) / 8) ((0 + w) % 8) s.byteoffsetmax).2
-            simp only [roundupBytes] at this
+            simp only [roundupBytes_def] at this
             simp only []
             split at this <;> omega
           · intro sh w' hbw
@@ -158,7 +161,7 @@ theorem step_inside (u : Bool) (p : Nat) (last : Bool) (s s' : St) (f : FField C
           refine ⟨Or.inr ⟨f.align, hfa16, hAn hn, hdm, hsza, ?_⟩, ?_⟩
           · have := (bump_ge (if (decide (s.alignment < f.align) && f.named) = true then f.align else s.alignment)
               (b0 + (bo0 + w) / 8) ((bo0 + w) % 8) s.byteoffsetmax).2
-            simp only [roundupBytes] at this
+            simp only [roundupBytes_def] at this
             simp only []
             split at this <;> omega
           · intro sh w' hbw
@@ -200,9 +203,11 @@ theorem loop_inside (u : Bool) (p : Nat) (hp : PackOK p) :
 theorem inside_final (A m off n : Nat) (hA : A16 A)
     (h : off + n ≤ m ∨ ∃ a, A16 a ∧ a ≤ A ∧ off % a = 0 ∧ n ≤ a ∧ off < m) : off + n ≤ alignUp m A := by
   rcases h with h | ⟨a, ha, hle, hmod, hna, hlt⟩
-  · rcases hA with rfl | rfl | rfl | rfl | rfl <;> simp only [alignUp, alignDown] <;> omega
-  · rcases hA with rfl | rfl | rfl | rfl | rfl <;> rcases ha with rfl | rfl | rfl | rfl | rfl <;>
-      simp only [alignUp, alignDown] <;> omega
+  · rw [alignUp_A16 _ _ hA]
+    rcases hA with rfl | rfl | rfl | rfl | rfl <;> simp only [alignUpA, alignDownA] <;> omega
+  · rw [alignUp_A16 _ _ hA]
+    rcases hA with rfl | rfl | rfl | rfl | rfl <;> rcases ha with rfl | rfl | rfl | rfl | rfl <;>
+      simp only [alignUpA, alignDownA] <;> omega
 
 theorem complete_inside (u : Bool) (p : Nat) (fs : List (FField CField)) (l : CLayout) (hp : PackOK p)
     (hw : WFList p fs) (hsub : ∀ f ∈ fs, SubOK f) (h : completeC u p fs = .ok l) :
@@ -219,7 +224,7 @@ theorem complete_inside (u : Bool) (p : Nat) (fs : List (FField CField)) (l : CL
     obtain ⟨h1, h2⟩ := hin c hc n hn
     refine ⟨?_, h2⟩
     have := inside_final _ _ _ _ hA h1
-    simp only [finishC]
+    simp only [finishC_ref]
     split <;> omega
 
 mutual
